@@ -15,15 +15,25 @@ import os
 import re
 import shutil
 
-from vf import build, p21, sess, tlc
+from vf import build, p21, seps, sess, tlc
 from vf.common import VERIF, InfraError, mkdir
 
 SCHEMA = os.path.join(VERIF, "schemas", "rt.exp")
 DRV = os.path.join(VERIF, "harness", "cpp", "session_drv.cc")
-VARIANTS = ["compact", "spaced", "comments", "lines", "forward"]
+VARIANTS = ["compact", "spaced", "comments", "lines", "forward", "sepmix", "blankmix"]
 
 
-def render(inst, variant):
+def render(inst, variant, salt=0):
+    if variant in ("sepmix", "blankmix"):
+        # any separator of spec/P21Sep.tla between any two tokens of the data section
+        sp = seps.Spacer("comments" if variant == "sepmix" else "plain", salt)
+        head, data = render(inst, "compact").split("DATA;\n")
+        body, tail = data.split("ENDSEC;")
+        out = []
+        for _, t in p21.tokenize(body):
+            out.append(t)
+            out.append("\n" if t == ";" else sp())
+        return head + "DATA;\n" + "".join(out) + "ENDSEC;" + tail
     if variant == "spaced":
         sep, lp, rp = " , ", " ( ", " ) "
     elif variant == "comments":
@@ -85,7 +95,7 @@ def run(ctx):
     wd = os.path.join(ctx.work, "s")
     shutil.rmtree(wd, ignore_errors=True)
     mkdir(wd)
-    scripts, meta = [], {}
+    scripts, meta, files = [], {}, {}
     k = 0
     for c in cases:
         variants = VARIANTS if not ctx.quick else [VARIANTS[(c["n"] + c["shape"] + ctx.seed) % len(VARIANTS)], "compact"]
@@ -93,10 +103,11 @@ def run(ctx):
             tag = "%d" % k
             k += 1
             f = os.path.join(wd, "i%s.p21" % tag)
-            open(f, "w").write(render(c["inst"], v))
+            open(f, "w", newline="").write(render(c["inst"], v, k - 1))
             o1, o2 = os.path.join(wd, "o%s_1.p21" % tag), os.path.join(wd, "o%s_2.p21" % tag)
             scripts.append((tag, ["new 0", "read " + f, "write " + o1, "new 0", "read " + o1, "write " + o2]))
             meta[tag] = (c, v, f, o1, o2)
+            files[tag] = render(c["inst"], v, k - 1)
     res = {}
     B = 60
     with cf.ThreadPoolExecutor(max_workers=10) as ex:
@@ -156,7 +167,7 @@ def run(ctx):
         key = "dev:" + c["dev"] if c.get("dev") else "%s|%s|%s|%s" % (clause, "+".join(c["inst"]["kw"]), v if clause in ("read-error",) else "-", ev["why"][:80])
         ctx.violation(key,
                       "%s (%s spelling): %s :: severity %s; %s" % (clause, v, inst[:160], ev["sev"], ev["why"][:200]),
-                      {"instance": c["inst"], "variant": v, "file": open(f).read(), "event": ev})
+                      {"instance": c["inst"], "variant": v, "file": files[ev["tag"]], "event": ev})
     shutil.rmtree(wd, ignore_errors=True)
     cov = {"states": g.distinct, "transitions": g.generated, "traces_validated_against_impl": len(lines), "exhaustive": False,
            "instances": len(cases), "files": len(lines), "disagreeing": len(got),
